@@ -233,7 +233,8 @@ def top_case(rnd, tier, cfgkw=None, ntop=None, clash=False, porywrap=False, fmt=
 
 # ---------------- C04 ----------------
 F23_SRCS = ["script A { x }\nscript A { y }\n", "script A { x }\nmovement A { walk_up }\n", "mart A { ITEM_X }\nmart A { ITEM_Y }\n",
-            "mapscripts M { MAP_SCRIPT_ON_LOAD { a } MAP_SCRIPT_ON_LOAD { b } }\n"]
+            "mapscripts M { MAP_SCRIPT_ON_LOAD { a } MAP_SCRIPT_ON_LOAD { b } }\n",
+            'script A { msgbox("a") msgbox("b") }\nscript A_Text { if (flag(F)) { lock } release }\n']
 
 def gen_C04(rnd, n, tier):
     out = [top_case(rnd, tier, {"optimize": rnd.random() < 0.5}) for _ in range(n)]
